@@ -129,16 +129,24 @@ def activate(mod, cfg, plain_streams):
         def fn_values(d, kind=kind, k=k):
             return apply_kind(kind, k, d[focus], d.get(ctx), ABSENT)
 
+        if mech in ("override", "koverride", "filter"):
+            # every overridable probe also listens: it must see each binding of the focus once,
+            # whatever the other handlers do with it (the values it is shown are not asserted)
+            cnt = []
+            plain_streams.setdefault("#own_counts", []).append(cnt)
         if mech == "override":
             p = probing(sel, env=ns, overridable=True)
+            p.subscribe(lambda d, cnt=cnt: cnt.append(1))
             p.override(fn_values)
             cms.append(p)
         elif mech == "koverride":
             p = probing(sel, env=ns, overridable=True)
+            p.subscribe(lambda d, cnt=cnt: cnt.append(1))
             p.koverride(lambda fn_values=fn_values, **kw: fn_values(kw))
             cms.append(p)
         elif mech == "filter":
             p = probing(sel, env=ns, overridable=True)
+            p.subscribe(lambda d, cnt=cnt: cnt.append(1))
             # cond declines for even tentative values: express the condition upstream
             p.filter(lambda d: is_int(d[focus]) and d[focus] % 2 != 0).override(lambda d, k=k: d[focus] * 2 + k)
             cms.append(p)
@@ -147,7 +155,15 @@ def activate(mod, cfg, plain_streams):
             autotool(so)
             tooled.append(so)
             if mech == "tweaking":
-                cms.append(Overlay.tweaking({so: k}))
+                entries = {so: k}
+                if True:
+                    # a second entry in the same call, whose call path never occurs (f never runs
+                    # under itself)
+                    never = select(f"f > f > {focus}", env=ns)
+                    autotool(never)
+                    tooled.append(never)
+                    entries[never] = k + 1000
+                cms.append(Overlay.tweaking(entries))
             elif mech == "rewriting":
                 cms.append(Overlay.rewriting({so: fn_values}, full=False))
             else:
@@ -196,6 +212,10 @@ def check_program(m, mod, rnd, res, case_base, nconf):
             d = [x for x in prorun.same_outcome(ref, out) if x != "cells"]
             if d:
                 res.violation(case, {"what": "overridden call differs from the substituted twin", "diff": prorun.describe_diff(ref, out, d), "substitutions_in_twin": stats["substituted"]})
+            for cnt in plain_streams.pop("#own_counts", []):
+                res.deciding += 1
+                if len(cnt) != len(ref_focus):
+                    res.violation(case, {"what": "an overridable probe did not receive one event per binding of its focus variable", "bindings": len(ref_focus), "events": len(cnt)})
             for tag, got in plain_streams.items():
                 res.deciding += 1
                 if got != ref_focus:
